@@ -48,6 +48,23 @@ type Plan struct {
 type selectionPlan struct {
 	parentType *Object
 	fields     []*fieldPlan
+
+	// dynamic is set when a variable-driven @skip / @include occurs at
+	// this selection-set level (including the fragments it spreads).
+	// Which occurrences of a response key are included, and which
+	// spreads mark their fragment as visited, then depends on the
+	// request's variables, so the level is collected again at execute
+	// time with the variables known (see Plan.collectAtRuntime).
+	dynamic []*ast.SelectionSet
+}
+
+// collectState carries what collectInto needs to know about the phase
+// it runs in: at plan time vars is unknown and variable-driven
+// directives are only recorded; at execute time they are evaluated.
+type collectState struct {
+	runtime    bool
+	vars       map[string]interface{}
+	sawDynamic bool
 }
 
 // fieldPlan is one entry in a selectionPlan: enough to resolve, run,
@@ -62,11 +79,6 @@ type fieldPlan struct {
 	fieldASTs   []*ast.Field // [0] is the canonical AST for arg lookup; full slice flows into ResolveInfo
 	args        argPlan
 	returnType  Output
-
-	// skipPredicate evaluates the field's combined @skip / @include
-	// directives against request variables. nil ⇒ always include
-	// (constant-true at plan time, the common case).
-	skipPredicate func(map[string]interface{}) bool
 
 	// sub is set when returnType (after unwrapping NonNull and List)
 	// resolves to a single concrete *Object; abstractAlternatives is
@@ -250,52 +262,26 @@ func (p *Plan) planSelectionSet(parentType *Object, selectionSet *ast.SelectionS
 	if selectionSet == nil {
 		return nil
 	}
-	if visitedFragmentNames == nil {
-		visitedFragmentNames = map[string]bool{}
-	}
-	sp := &selectionPlan{parentType: parentType}
-	keyed := map[string]int{}
-	p.collectInto(parentType, selectionSet, visitedFragmentNames, sp, keyed, nil)
-	if len(sp.fields) == 0 {
-		return nil
-	}
-	// Phase 2: plan sub-selections for each merged field group.
-	for _, fp := range sp.fields {
-		if fp.fieldDef == nil {
-			continue
-		}
-		p.planMergedFieldChildren(fp)
-	}
-	return sp
+	return p.planSelectionSets(parentType, []*ast.SelectionSet{selectionSet}, &collectState{})
 }
 
 // planMergedFieldChildren walks every AST in fp.fieldASTs to merge
-// their sub-selections into a single sub-plan (or per-concrete-type
-// abstract alternatives). Mirrors completeObjectValue's loop over
-// fieldASTs, but at plan time so the executor can use the result
-// directly.
+// their sub-selections into a single sub-plan. Object returns resolve
+// to a single concrete type, so their sub-selection is planned eagerly.
+// Abstract returns (Interface / Union) are planned lazily, per concrete
+// type, the first time that type is actually encountered at execute
+// time (see Plan.abstractAlternative): expanding every possible type
+// eagerly compounds to O(possibleTypes ^ nesting-depth).
 func (p *Plan) planMergedFieldChildren(fp *fieldPlan) {
-	// Object returns resolve to a single concrete type, so plan their
-	// sub-selection eagerly.
 	if obj, ok := unwrapNamedType(fp.returnType).(*Object); ok {
-		fp.sub = p.planMergedSelectionsForType(obj, fp.fieldASTs)
-		return
+		fp.sub = p.planSelectionSets(obj, selectionSetsOf(fp.fieldASTs), &collectState{})
 	}
-	// Abstract returns (Interface / Union) are planned lazily, per
-	// concrete type, the first time that type is actually encountered at
-	// execute time (see Plan.abstractAlternative). Eagerly expanding
-	// every possible type here is O(possibleTypes) per abstract field;
-	// because each expanded type's sub-selection can contain further
-	// abstract fields, it compounds to O(possibleTypes ^ nesting-depth)
-	// — which makes deeply-nested polymorphic queries on large schemas
-	// take minutes to plan, even though a single request only ever
-	// resolves one concrete type per level.
 }
 
 // abstractAlternative returns the planned sub-selection for an abstract
 // field's runtime concrete type, planning (and caching) it on first use.
-// Concurrency-safe: ExecutePlan resolves fields concurrently, so several
-// goroutines may reach the same abstract field at once.
+// Concurrency-safe: several executions may reach the same abstract field
+// at once.
 func (p *Plan) abstractAlternative(fp *fieldPlan, runtimeType *Object) *selectionPlan {
 	p.abstractMu.Lock()
 	defer p.abstractMu.Unlock()
@@ -310,22 +296,43 @@ func (p *Plan) abstractAlternative(fp *fieldPlan, runtimeType *Object) *selectio
 	return sub
 }
 
-// planMergedSelectionsForType collects the union of every AST's
-// SelectionSet under one concrete parent type, returning a
-// selectionPlan that mirrors what completeObjectValue's runtime
-// collectFields loop would produce.
-func (p *Plan) planMergedSelectionsForType(parentType *Object, fieldASTs []*ast.Field) *selectionPlan {
-	sp := &selectionPlan{parentType: parentType}
-	keyed := map[string]int{}
-	visited := map[string]bool{}
+func selectionSetsOf(fieldASTs []*ast.Field) []*ast.SelectionSet {
+	selectionSets := make([]*ast.SelectionSet, 0, len(fieldASTs))
 	for _, f := range fieldASTs {
 		if f == nil || f.SelectionSet == nil {
 			continue
 		}
-		p.collectInto(parentType, f.SelectionSet, visited, sp, keyed, nil)
+		selectionSets = append(selectionSets, f.SelectionSet)
 	}
-	if len(sp.fields) == 0 {
-		return nil
+	return selectionSets
+}
+
+// planMergedSelectionsForType collects the union of every AST's
+// SelectionSet under one concrete parent type, returning a
+// selectionPlan that mirrors what CollectFields would produce.
+func (p *Plan) planMergedSelectionsForType(parentType *Object, fieldASTs []*ast.Field) *selectionPlan {
+	return p.planSelectionSets(parentType, selectionSetsOf(fieldASTs), &collectState{})
+}
+
+// collectAtRuntime re-collects a dynamic selection-set level with the
+// request's variables, so that every @skip / @include is decided per
+// occurrence exactly as CollectFields does.
+func (p *Plan) collectAtRuntime(sp *selectionPlan, vars map[string]interface{}) *selectionPlan {
+	return p.planSelectionSets(sp.parentType, sp.dynamic, &collectState{runtime: true, vars: vars})
+}
+
+// planSelectionSets plans the merged selection sets for one parent type.
+func (p *Plan) planSelectionSets(parentType *Object, selectionSets []*ast.SelectionSet, cs *collectState) *selectionPlan {
+	sp := &selectionPlan{parentType: parentType}
+	keyed := map[string]int{}
+	visited := map[string]bool{}
+	for _, selectionSet := range selectionSets {
+		p.collectInto(parentType, selectionSet, visited, sp, keyed, cs)
+	}
+	if cs.sawDynamic {
+		sp.fields = nil
+		sp.dynamic = selectionSets
+		return sp
 	}
 	for _, fp := range sp.fields {
 		if fp.fieldDef == nil {
@@ -349,11 +356,11 @@ func (p *Plan) planMergedSelectionsForType(parentType *Object, fieldASTs []*ast.
 // keyed maps responseKey → index in sp.fields so repeat selections
 // of the same response key merge their fieldASTs (matches
 // collectFields's `fields[name] = append(fields[name], selection)`).
-func (p *Plan) collectInto(parentType *Object, selectionSet *ast.SelectionSet, visitedFragmentNames map[string]bool, sp *selectionPlan, keyed map[string]int, parentPred func(map[string]interface{}) bool) {
+func (p *Plan) collectInto(parentType *Object, selectionSet *ast.SelectionSet, visitedFragmentNames map[string]bool, sp *selectionPlan, keyed map[string]int, cs *collectState) {
 	for _, iSelection := range selectionSet.Selections {
 		switch sel := iSelection.(type) {
 		case *ast.Field:
-			pred, alwaysSkip := planDirectives(sel.Directives)
+			alwaysSkip := planDirectives(sel.Directives, cs)
 			if alwaysSkip {
 				continue
 			}
@@ -381,11 +388,10 @@ func (p *Plan) collectInto(parentType *Object, selectionSet *ast.SelectionSet, v
 				// hasNoFieldDefs branch (skip the response key).
 			}
 			fp := &fieldPlan{
-				responseKey:   responseKey,
-				fieldName:     fieldName,
-				fieldDef:      fieldDef,
-				fieldASTs:     []*ast.Field{sel},
-				skipPredicate: andPredicates(parentPred, pred),
+				responseKey: responseKey,
+				fieldName:   fieldName,
+				fieldDef:    fieldDef,
+				fieldASTs:   []*ast.Field{sel},
 			}
 			if fieldDef != nil {
 				fp.returnType = fieldDef.Type
@@ -395,7 +401,7 @@ func (p *Plan) collectInto(parentType *Object, selectionSet *ast.SelectionSet, v
 			sp.fields = append(sp.fields, fp)
 
 		case *ast.InlineFragment:
-			pred, alwaysSkip := planDirectives(sel.Directives)
+			alwaysSkip := planDirectives(sel.Directives, cs)
 			if alwaysSkip {
 				continue
 			}
@@ -403,11 +409,11 @@ func (p *Plan) collectInto(parentType *Object, selectionSet *ast.SelectionSet, v
 				continue
 			}
 			if sel.SelectionSet != nil {
-				p.collectInto(parentType, sel.SelectionSet, visitedFragmentNames, sp, keyed, andPredicates(parentPred, pred))
+				p.collectInto(parentType, sel.SelectionSet, visitedFragmentNames, sp, keyed, cs)
 			}
 
 		case *ast.FragmentSpread:
-			pred, alwaysSkip := planDirectives(sel.Directives)
+			alwaysSkip := planDirectives(sel.Directives, cs)
 			if alwaysSkip {
 				continue
 			}
@@ -431,28 +437,9 @@ func (p *Plan) collectInto(parentType *Object, selectionSet *ast.SelectionSet, v
 				continue
 			}
 			if fragDef.GetSelectionSet() != nil {
-				p.collectInto(parentType, fragDef.GetSelectionSet(), visitedFragmentNames, sp, keyed, andPredicates(parentPred, pred))
+				p.collectInto(parentType, fragDef.GetSelectionSet(), visitedFragmentNames, sp, keyed, cs)
 			}
 		}
-	}
-}
-
-// andPredicates returns a predicate that is true only when both inputs
-// are true. nil is treated as the constant-true predicate, so the
-// common "no enclosing gate" / "no field-level directive" cases avoid
-// allocating a closure.
-func andPredicates(a, b func(map[string]interface{}) bool) func(map[string]interface{}) bool {
-	if a == nil {
-		return b
-	}
-	if b == nil {
-		return a
-	}
-	return func(vars map[string]interface{}) bool {
-		if !a(vars) {
-			return false
-		}
-		return b(vars)
 	}
 }
 
@@ -540,7 +527,7 @@ func valueHasVariables(v ast.Value) bool {
 // time when their `if` argument is a literal; returns a
 // skipPredicate (nil if always-include) and an alwaysSkip flag (true
 // if literal evaluation produced a definitive skip).
-func planDirectives(directives []*ast.Directive) (pred func(map[string]interface{}) bool, alwaysSkip bool) {
+func planDirectives(directives []*ast.Directive, cs *collectState) (alwaysSkip bool) {
 	var skipDir, includeDir *ast.Directive
 	for _, d := range directives {
 		if d == nil || d.Name == nil {
@@ -553,50 +540,27 @@ func planDirectives(directives []*ast.Directive) (pred func(map[string]interface
 			includeDir = d
 		}
 	}
-	if skipDir == nil && includeDir == nil {
-		return nil, false
-	}
-	// Evaluate constants where possible; surface a runtime predicate
-	// for the variable-driven cases.
-	var skipDyn, includeDyn *ast.Directive
 	if skipDir != nil {
-		if astHasVariables(skipDir.Arguments) {
-			skipDyn = skipDir
+		if !cs.runtime && astHasVariables(skipDir.Arguments) {
+			cs.sawDynamic = true
 		} else {
-			vals := getArgumentValues(SkipDirective.Args, skipDir.Arguments, nil)
+			vals := getArgumentValues(SkipDirective.Args, skipDir.Arguments, cs.vars)
 			if v, ok := vals["if"].(bool); ok && v {
-				return nil, true
+				return true
 			}
 		}
 	}
 	if includeDir != nil {
-		if astHasVariables(includeDir.Arguments) {
-			includeDyn = includeDir
+		if !cs.runtime && astHasVariables(includeDir.Arguments) {
+			cs.sawDynamic = true
 		} else {
-			vals := getArgumentValues(IncludeDirective.Args, includeDir.Arguments, nil)
+			vals := getArgumentValues(IncludeDirective.Args, includeDir.Arguments, cs.vars)
 			if v, ok := vals["if"].(bool); ok && !v {
-				return nil, true
+				return true
 			}
 		}
 	}
-	if skipDyn == nil && includeDyn == nil {
-		return nil, false
-	}
-	return func(vars map[string]interface{}) bool {
-		if skipDyn != nil {
-			vals := getArgumentValues(SkipDirective.Args, skipDyn.Arguments, vars)
-			if v, ok := vals["if"].(bool); ok && v {
-				return false // excluded
-			}
-		}
-		if includeDyn != nil {
-			vals := getArgumentValues(IncludeDirective.Args, includeDyn.Arguments, vars)
-			if v, ok := vals["if"].(bool); ok && !v {
-				return false // excluded
-			}
-		}
-		return true
-	}, false
+	return false
 }
 
 // planFragmentMatches mirrors doesFragmentConditionMatch: a missing
@@ -726,6 +690,9 @@ func ExecutePlan(plan *Plan, p ExecuteParams) (result *Result) {
 // ExecutePlan via dethunkMapDepthFirst / dethunkMapWithBreadthFirstTraversal,
 // so this walker is the same for both.
 func executePlannedSelection(eCtx *executionContext, sp *selectionPlan, source interface{}, parentType *Object, path *ResponsePath) map[string]interface{} {
+	if sp != nil && sp.dynamic != nil {
+		sp = eCtx.plan.collectAtRuntime(sp, eCtx.VariableValues)
+	}
 	if sp == nil {
 		return map[string]interface{}{}
 	}
@@ -734,9 +701,6 @@ func executePlannedSelection(eCtx *executionContext, sp *selectionPlan, source i
 	}
 	finalResults := make(map[string]interface{}, len(sp.fields))
 	for _, fp := range sp.fields {
-		if fp.skipPredicate != nil && !fp.skipPredicate(eCtx.VariableValues) {
-			continue
-		}
 		if fp.fieldDef == nil {
 			// Mirrors executeSubFields' hasNoFieldDefs branch: silently
 			// skip unknown fields. Validation should have rejected
